@@ -449,7 +449,15 @@ func init() {
 		"internal/race.Disable":     noop,
 		"internal/race.Enable":      noop,
 		"runtime.KeepAlive":         noop,
-		"runtime.Gosched":           func(w *W, s *State, args []Value) Value { return TupleV{} },
+		"runtime.Gosched": func(w *W, s *State, args []Value) Value {
+			// cooperative yield: advance past the call, let every other runnable goroutine go first
+			if len(s.gs) == 0 {
+				return TupleV{}
+			}
+			s.top().pc++
+			s.progress++
+			panic(blockReq{"yield"})
+		},
 
 		// ---- time ----
 		"time.Now": func(w *W, s *State, args []Value) Value { return monoTime(w, w.nowExt(s)) },
